@@ -439,6 +439,19 @@ func (g *c05Gen) mutateLedger(ctx sdk.Context) {
 	case 0:
 		op := rng.Intn(nOps)
 		f := sdkmath.LegacyNewDecWithPrec(int64(1+rng.Intn(99)), 2)
+		if rng.Intn(2) == 0 {
+			// a full (100 %) slash: every pool of the operator is emptied and its shares must be cleared consistently, or the
+			// next voting-power updates choke on the leftover share fields
+			v, ok := g.opValue(ctx, op)
+			if ok && v.TruncateInt().IsInt64() && v.TruncateInt().Int64() < (1<<61) {
+				func() {
+					defer func() { _ = recover() }()
+					app.OperatorKeeper.SlashWithInfractionReason(ctx, g.w.Env.Operators[op], ctx.BlockHeight()-1, v.TruncateInt().Int64()*2+1, sdkmath.LegacyOneDec(), stakingtypes.Infraction_INFRACTION_DOUBLE_SIGN)
+				}()
+				g.cw.Count("mut.full-slash")
+				return
+			}
+		}
 		func() {
 			defer func() { _ = recover() }()
 			app.OperatorKeeper.SlashWithInfractionReason(ctx, g.w.Env.Operators[op], ctx.BlockHeight()-1, g.pickPower(ctx, op), f, stakingtypes.Infraction_INFRACTION_DOWNTIME)
@@ -578,6 +591,48 @@ func runC05(a *Args) error {
 		}
 		cw.Add(cApp("mkCase", cList([]string{steps[0].coq(), steps[1].coq()}), c05OptInsCoq(g.optins)), c05Case{Suite: "c05", NT: true, Steps: steps, OptIns: g.optins, Tags: []string{"directed-empty-asset-list"}})
 		cw.Count("directed.empty-asset-list")
+	}
+
+	// ---- directed scenario: a self-staking operator is slashed 100 % (pools emptied, shares cleared), another operator receives a
+	// new delegation, then the AVS's epoch ends: every operator's values must be fresh (the slashed one: 0) ----
+	{
+		ctx, _ := base.CacheContext()
+		ids := &c04IDs{m: map[string]int{}}
+		g.optins = nil
+		ctx = ctx.WithBlockHeight(5)
+		addr := c05AvsAddr(0x71)
+		if err := app.AVSManagerKeeper.UpdateAVSInfo(ctx, &avstypes.AVSRegisterOrDeregisterParams{
+			AvsName: "fullslash", AvsAddress: addr, AssetID: []string{w.Assets[0].ID}, EpochIdentifier: "minute", UnbondingPeriod: 2, Action: avskeeper.RegisterAction,
+		}); err != nil {
+			panic(err)
+		}
+		for oi := 0; oi < 3; oi++ {
+			if err := g.optIn(ctx, ids, oi, addr, false); err != nil {
+				panic(err)
+			}
+		}
+		info, _ := app.AVSManagerKeeper.GetAVSInfo(ctx, addr)
+		n := int64(info.Info.StartingEpoch)
+		var steps []c05Step
+		for k := 0; k < 2; k++ {
+			if k == 1 {
+				v, _ := g.opValue(ctx, 0)
+				app.OperatorKeeper.SlashWithInfractionReason(ctx.WithBlockHeight(6), w.Env.Operators[0], 5, v.TruncateInt().Int64()*2+1, sdkmath.LegacyOneDec(), stakingtypes.Infraction_INFRACTION_DOUBLE_SIGN)
+				g.buildLedger(ctx.WithBlockHeight(6), 1, nil)
+			}
+			st := c05Step{Mode: "hook"}
+			st.Env = g.observe(ctx, ids)
+			st.Before = g.dumpState(ctx, ids)
+			st.Calls = [][2]int64{{int64(c05Epochs["minute"]), n + int64(k)}}
+			app.OperatorKeeper.EpochsHooks().AfterEpochEnd(ctx, "minute", n+int64(k))
+			st.After = g.dumpState(ctx, ids)
+			st.Queries = g.queries(ctx, ids, st.Env)
+			st.Votes = g.votes(ctx)
+			g.stats(st)
+			steps = append(steps, st)
+		}
+		cw.Add(cApp("mkCase", cList([]string{steps[0].coq(), steps[1].coq()}), c05OptInsCoq(g.optins)), c05Case{Suite: "c05", NT: true, Steps: steps, Tags: []string{"directed-full-slash-then-epoch-end"}})
+		cw.Count("directed.full-slash-then-epoch-end")
 	}
 
 	for cw.n < a.N {
@@ -924,6 +979,11 @@ func (g *c05Gen) stats(st c05Step) {
 			if self.Cmp(min) == 0 && a.Min > 0 {
 				g.cw.Count("obs.row.self=min exactly")
 			}
+		}
+	}
+	for _, p := range st.Env.Pools {
+		if p.Total == "0" {
+			g.cw.Count("obs.pool.empty(after full slash / exit)")
 		}
 	}
 	for _, q := range st.Queries {
